@@ -100,3 +100,10 @@ Proof.
     destruct (i_body i) as [e|] eqn:B; [|discriminate].
     cbn [resolve]. destruct (guard_eval g (i_guard i)); [rewrite B; eexists; reflexivity | apply IH; assumption].
 Qed.
+
+(* environment update, for "supplying a derived value to a fresh object" *)
+Definition upd (rho : env) (x : string) (v : R) : env := fun y => if String.eqb x y then v else rho y.
+
+(* every implementation of a chain, evaluated under rho, gives v - whichever of them is consulted *)
+Definition all_impls_give (rho : env) (ch : list impl) (v : R) : Prop :=
+  forall i e, In i ch -> i_body i = Some e -> eval rho e = v.
